@@ -316,12 +316,12 @@ def main(argv):
             checker_cmds.append(r.get("cmd", ""))
             kani_report.append(dict(unit=k, function_text_extracted_from=r.get("extracted", []),
                                     transformations=r.get("transformations", []),
-                                    harnesses=[dict(name=h["name"], status=h["status"], wall_s=h.get("wall_s"), covers=h.get("covers")) for h in r["harnesses"]]))
+                                    harnesses=[dict(name=h["name"], status=h["status"], wall_s=h.get("wall_s"), covers=h.get("covers"), from_cache=bool(h.get("from_cache"))) for h in r["harnesses"]]))
             trusted.add("kani stub environment: kani/%s/src/main.rs" % k)
             for h in r["harnesses"]:
                 entry = dict(name="%s::%s" % (k, h["name"]), bound=h.get("bound", ""), result=h["status"],
                              backend="kani/cbmc", wall_s=h.get("wall_s"), complete=h.get("complete", False),
-                             checks=h.get("checks"))
+                             checks=h.get("checks"), from_cache=bool(h.get("from_cache")))
                 if h.get("complete"):
                     n_oblig += 1
                     if h["status"] == "SUCCESSFUL":
